@@ -60,12 +60,52 @@ def rstring(rng, big=False):
     else: n = rng.randrange(8, 60)
     return rbytes(rng, n, rng.choice([0.1, 0.5, 0.9]))
 
-def value_item(rng, pm, kinds='sif'):
+IMODS = {'': 32, 'hh': 8, 'h': 16, 'l': 64, 'll': 64, 'j': 64, 'z': 64, 't': 64, 'q': 64}
+ICONVS = 'diouxX'
+FCONVS = 'fFeEgG'
+
+def rint_width(rng, w, signed):
+    """an int64 that is a value of the w-bit type (for w = 64: any int64, also under the unsigned conversions)"""
+    if w == 64: return rint(rng)
+    lo, hi = (-(1 << (w - 1)), (1 << (w - 1)) - 1) if signed else (0, (1 << w) - 1)
+    r = rng.random()
+    if r < 0.3: return rng.choice([lo, hi, lo + 1, hi - 1, 0, 1, -1 if signed else 2, hi // 2, 7, 8, 9, 10, 15, 16, 255 if hi >= 255 else hi])
+    if r < 0.5: return max(lo, min(hi, rng.choice([1, -1] if signed else [1]) * rng.choice([10, 100, 1000, 8, 64, 512, 16, 256, 4096]) + rng.choice([-1, 0, 1])))
+    return rng.randrange(lo, hi + 1)
+
+def rfloat_bits(rng):
+    """a double that is the value of a float (binary32): special values, subnormals, the extremes, 24-bit integers, random patterns"""
+    r = rng.random()
+    if r < 0.15:
+        b = rng.choice([0x00000000, 0x80000000, 0x00000001, 0x80000001, 0x007fffff, 0x00800000, 0x7f7fffff, 0xff7fffff, 0x3f800000, 0x3f800001,
+                        0x4b800000, 0x4b7fffff, 0x3dcccccd, 0x3f000000, 0x40490fdb, 0x49742400, 0x47c35000, 0x358637bd, 0x38d1b717, 0x3a83126f])
+    elif r < 0.35: return dbits(float(rng.randrange(-(1 << 24), (1 << 24) + 1)))
+    elif r < 0.55: b = struct.unpack('>I', struct.pack('>f', rng.uniform(-1, 1) * 10 ** rng.randrange(-8, 12)))[0]
+    else:
+        while True:
+            b = rng.getrandbits(32)
+            if ((b >> 23) & 255) != 255: break
+    return dbits(struct.unpack('>f', struct.pack('>I', b))[0])
+
+def int_spec_item(rng, fit=True):
+    m = rng.choice(list(IMODS)); c = rng.choice(ICONVS); w = IMODS[m]; signed = c in 'di'
+    n = rint_width(rng, w, signed) if fit else rint(rng)
+    return f'I{m}{c}={n}'
+
+def float_spec_item(rng):
+    c = rng.choice(FCONVS)
+    if rng.random() < 0.5: return f'Fl{c}={rdouble_bits(rng)}'
+    # without l the destination is a float: only float values (anything else is the territory of KF-C15-float-spec-narrow)
+    return f'F{c}={rfloat_bits(rng)}'
+
+def value_item(rng, pm, kinds='sif', fit=True):
     k = rng.choice(kinds)
     if k == 's': return 's=' + hx(rstring(rng, True))
     if k == 'i':
+        if pm and rng.random() < 0.6: return int_spec_item(rng, fit or rng.random() < 0.5)
         tag = rng.choice(['i', 'li', 'ld']) if pm else 'i'
         return f'{tag}={rint(rng)}'
+    if pm and rng.random() < 0.6: return float_spec_item(rng)
     tag = rng.choice(['f', 'lf']) if pm else 'f'
     return f'{tag}={rdouble_bits(rng)}'
 
@@ -84,7 +124,7 @@ def sequence(rng, contract=True, maxlen=10, kinds='sif'):
     items = []
     if rng.random() < 0.2: items.append(sep_item(rng, True, pm))
     for j in range(n):
-        it = value_item(rng, pm, kinds)
+        it = value_item(rng, pm, kinds, fit=contract or rng.random() < 0.5)
         items.append(it)
         last = j == n - 1
         numeric = not it.startswith('s=')
@@ -97,8 +137,9 @@ def sequence(rng, contract=True, maxlen=10, kinds='sif'):
             if rng.random() < 0.6: items.append(sep_item(rng, False, pm))
     if rng.random() < 0.4:
         if contract:
-            z = rng.choice([b',', b' ', b'"', b'\\', b'xyz', b';1', b'\n5', b'-', b'+1'])
+            z = rng.choice([b',', b' ', b'"', b'\\', b'xyz', b';1', b'\n5', b'-', b'+1', b'.', b'g'])
             if items[-1].startswith('t=') and z[:1] in (b' ', b'\n') and src == 'F': z = b';'
+            if items[-1][:1] == 'F' and items[-1].split('=')[0][-1] in 'gG' and z[:1] in (b'.', b'x'): z = b';'
         else:
             z = rng.choice([b'0', b'9', b'x1', b'e1', b' ', b'.5', b'E', b'X'])
         items.append('z=' + hx(z))
@@ -109,7 +150,7 @@ def sequence(rng, contract=True, maxlen=10, kinds='sif'):
         for it in items:
             if it == 'pc': bound += 2; continue
             k, v = it.split('=', 1)
-            bound += {'s': len(v) + 2, 't': len(v) // 2, 'z': 0}.get(k, 330 if k in ('f', 'lf') else 21)
+            bound += {'s': len(v) + 2, 't': len(v) // 2, 'z': 0}.get(k, 330 if k in ('f', 'lf') or k[0] == 'F' else 24)
         z = bytes.fromhex(items.pop().split('=', 1)[1]) if items[-1].startswith('z=') else b''
         items.append('z=' + hx(z + b';' * bound))
     return f"R {src} {rng.choice(START)} {'print' if pm else 'show'} " + ' '.join(items)
@@ -124,9 +165,10 @@ def int_text(rng):
     elif r < 0.7: body = bytes(rng.choice(b'0123456789') for _ in range(rng.randrange(17, 25)))
     elif r < 0.8: body = rng.choice([b'9223372036854775807', b'9223372036854775808', b'9223372036854775809', b'18446744073709551615', b'18446744073709551616',
                                        b'0x7fffffffffffffff', b'0x8000000000000000', b'0xffffffffffffffff', b'01000000000000000000000', b'0777777777777777777777'])
+    elif r < 0.86: body = bytes(rng.choice(b'0123456789abcdefABCDEF') for _ in range(rng.randrange(1, 19)))
     elif r < 0.9: body = rbytes(rng, rng.randrange(0, 4), 0.8)
     else: body = b''
-    tail = rng.choice([b'', b',', b' ', b'x', b'8', b'-', b'.', b'abc'])
+    tail = rng.choice([b'', b',', b' ', b'x', b'8', b'-', b'.', b'abc', b'g'])
     return ws + sign + body + tail
 
 def float_text(rng):
@@ -159,11 +201,13 @@ def mutate_shown(rng):
     return t + rng.choice([b'', b'tail', b'"', b'\\'])
 
 def look_op(rng):
-    kind = rng.choice(['s', 's', 'i', 'i', 'ld', 'f'])
+    kind = rng.choice(['s', 's', 'i', 'i', 'ld', 'f', 'I', 'I', 'F'])
     src = rng.choice('SF')
     pre = rng.choice([b'', b'', b'7', b'"x ', b'12345'])
+    if kind == 'I': kind = 'I' + rng.choice(list(IMODS)) + rng.choice(ICONVS)
+    elif kind == 'F': kind = 'F' + rng.choice(['', 'l']) + rng.choice(FCONVS)
     if kind == 's': t = mutate_shown(rng)
-    elif kind in ('i', 'ld'): t = int_text(rng)
+    elif kind in ('i', 'ld') or kind[0] == 'I': t = int_text(rng)
     else: t = float_text(rng)
     if src == 'F' and kind == 's' and rng.random() < 0.1 and len(t) > 2:
         i = rng.randrange(1, len(t)); t = t[:i] + b'\x00' + t[i:]
@@ -173,41 +217,55 @@ class C15(Spec):
     id = 'C15'; engine = 'text'; harness = 'h_text'; driver = 'drv_text'
     generators = ('Text',)
     harness_timeout = 600
-    technique = ('Lean 4 proof by induction over byte strings, decimal digit lists and item sequences about a model of String_Show/String_Look, '
-                 '"%li" printing/scanning and the position accounting of scan_from_with; escape tables, delimiters and the reader\'s control-flow flag '
-                 'regenerated from the source each run; differential check against the real library (String and File sinks) with a direct C oracle')
-    level_text = ('Theorems C15_string_roundtrip / C15_int_roundtrip / C15_sequence_roundtrip / C15_format_roundtrip / C15_float_consumed: for every '
-                  'NUL-free byte string, every int64 and every sequence of Strings, Ints, Floats and separators, written at every start position of a '
-                  'String or a File, the model of look_from / scan_from_with reads back exactly the value that the model of show_to / print_to_with wrote '
-                  '(for a Float: the double nearest to the six-decimal text written) and stops exactly at the end of the written text, whatever follows '
-                  '(for a number: anything that does not continue it); the returned position equals the writer\'s and a File\'s stream moves by exactly '
-                  'the characters written; stated on segment lists and on the raw format string as cut by the two scanners. The escape tables, delimiter '
-                  'bytes, the reader\'s `continue`, the conversion-character sets and the `%%` advance are extracted from the source on every run and the '
-                  'theorems are re-checked against them; the model is tied to the real functions by running tens of thousands of values and sequences '
-                  '(all 255 byte values, boundary integers, doubles over the whole exponent range) on both.')
-    level_note = ('partial for Float: "%f"/"%lf" are libc conversions; that %lf consumes exactly what %f wrote is proved (C15_float_consumed), that the value '
-                  'read back equals the original within the printed precision is NOT proved (C15_float_value_statement is a def, not a theorem) — an exact '
-                  'executable model of both conversions is compared with the implementation on every run and the direct oracle checks '
-                  '|read - written| <= 0.5e-6 + half an ulp and that the shown text is stable. Trusted: Lean kernel; the model of scanf "%li"/"%ld"/"%lf"/"%c"/'
-                  'literal matching and of printf "%li"/"%f"/"%c" (validated against glibc by the correspondence runs, not proved); translate/g_text.py; '
-                  'harness/driver comparison (testing). Outside: non-"l" integer '
-                  'specifications into a long (F21), non-finite doubles, reading at a position beyond the end of a String.')
+    technique = ('Lean 4 proof by induction over byte strings, digit lists (bases 8, 10, 16) and item sequences about a model of String_Show/String_Look, '
+                 'the integer conversions of printf/scanf for every length modifier, the integer branch of scan_from_with (which object scanf stores into, '
+                 'how it is widened) and the position accounting of scan_from_with; exact rational arithmetic (Mathlib Q) about round-half-even, the '
+                 'nearest-binary64/binary32 rounding of strtod/strtof and the six-decimal rounding of %f for the Float value clause; escape tables, '
+                 'delimiters, the reader\'s control-flow flag, the arms of the integer branch and the double/float test regenerated from the source each '
+                 'run; differential check against the real library (String and File sinks) with a direct C oracle')
+    level_text = ('Theorems C15_string_roundtrip / C15_int_roundtrip / C15_intspec_roundtrip / C15_sequence_roundtrip / C15_format_roundtrip / C15_float_consumed / '
+                  'C15_float_value / C15_float_within / C15_float_items: for every NUL-free byte string, every int64 under %$ and under each of the 54 '
+                  'specifications %[hh|h|l|ll|j|z|t|q][d|i|o|u|x|X], every finite double under %$ and %[l][f|F|e|E|g|G], and every sequence of them with '
+                  'separators, written at every start position of a String or a File, the model of look_from / scan_from_with reads back exactly the value '
+                  'that the model of show_to / print_to_with wrote — for an Int under a narrow specification C\'s conversion of the value to the type the '
+                  'specification names, i.e. the value itself on that type\'s range (C15_intspec_in_width); for a Float under %$ / %lf / %lF a double that '
+                  'prints as the same six-decimal text, has the same sign and differs by at most 1e-6 (proved in exact arithmetic about the model of both '
+                  'conversions) — and stops exactly at the end of the written text, whatever follows (for a number: anything that does not continue it); the '
+                  'returned position equals the writer\'s and a File\'s stream moves by exactly the characters written; stated on segment lists and on the raw '
+                  'format string as cut by the two scanners. The escape tables, delimiter bytes, the reader\'s `continue`, the conversion-character sets, the '
+                  '`%%` advance, the arms of the integer branch (test on fmt_buf, width of the object, widening) and the double/float test are extracted '
+                  'from the source on every run and the theorems are re-checked against them (C15_int_arms fails on the pre-9114264 branch); the model is tied '
+                  'to the real functions by running tens of thousands of values and sequences (all 255 byte values, boundary integers of every width, doubles '
+                  'over the whole exponent range, float values) on both.')
+    level_note = ('per clause — String: proved. Int (%$, all 54 integer specifications, all int64, ranges of each width): proved. Float value under %$ / %lf / %lF: '
+                  'proved (C15_float_value, C15_float_within; the former def C15_float_value_statement is now a theorem). Float under %f / %F without l: known finding '
+                  'KF-C15-float-spec-narrow (scan_from_with stores through a float): refuted for 123456789.123456 and 1.5e300 (C15_float_narrow_refuted), proved for '
+                  'every double that is a float value (C15_float_narrow_partial). Float under %e %E %g %G (with or without l): consumed length and position proved, '
+                  'value NOT proved (C15_float_sci_statement is a def) — the driver evaluates it on every such item and the oracle checks it with libc. '
+                  'Trusted: Lean kernel; the model of scanf (integer conversions, floating conversions into double and float, "%c", literal matching, "%n") and of printf '
+                  '(integer conversions, "%f" "%e" "%g", "%c") — validated against glibc by the correspondence runs, not proved; translate/g_text.py; harness/driver '
+                  'comparison (testing). Outside: flags, width and precision inside a specification, %a, non-finite doubles, reading at a position beyond the end of a String.')
     rule = ('op files of round trips (R: values and separators written at a start position of a String / File sink by show_to or by one print_to_with, '
-            'then read back by look_from / one scan_from_with) and of reads of arbitrary text (K). Generators: every byte value 1..255 alone and in one string, '
-            'random strings biased to quotes, backslashes, escape letters, control and high bytes, lengths 0..20000; boundary and random int64; doubles from '
-            'special values, sixth-decimal ties and boundaries, float-overflowing magnitudes, uniform bit patterns; sequences of 1..10 values with separators '
-            '(in contract, and deliberately out of contract for the correspondence only); damaged String_Show text, integer text with prefixes / overflow, '
+            'then read back by look_from / one scan_from_with) and of reads of arbitrary text (K, also through every integer / floating specification). '
+            'Generators: every byte value 1..255 alone and in one string, '
+            'random strings biased to quotes, backslashes, escape letters, control and high bytes, lengths 0..20000; boundary and random int64, and for each of the '
+            '54 integer specifications boundary and random values of the type it names (and, outside the property, values beyond it: C\'s conversion is expected); doubles from '
+            'special values, sixth-decimal ties and boundaries, float-overflowing magnitudes, uniform bit patterns, under %$ and %l[fFeEgG]; float values (special, subnormal, '
+            'extreme, 24-bit integers, uniform patterns) under %[fFeEgG]; sequences of 1..10 values with separators '
+            '(in contract, and deliberately out of contract for the correspondence only); damaged String_Show text, integer text with prefixes / overflow / signs / hexadecimal digits, '
             'decimal floating text with exponents. non-trivial = a distinct op line whose observation shows a value read back (R: successful read of >= 1 value '
             'at start > 0, or from a File, or with an escape / sign / fraction in the text, or of >= 2 values; K: an exception or a non-zero position).')
     trusted_base = ('translate/g_text.py generator Text (regular expressions over String_Show / String_Look / Num.c / Show.c)',
                     'harness/h_text.c + lean/Driver/Text.lean (correspondence is testing)',
-                    'glibc printf "%li" "%f" "%c" and scanf "%li" "%ld" "%lf" "%c" "%n", literal matching: modelled (Cello/Text.lean), validated by the runs, not verified',
-                    'arguments are modelled as values (Cello object headers, c_int / c_float / c_str dispatch are properties C08 / C19)')
+                    'glibc printf %[hh h l ll j z t q][d i o u x X], "%f" "%e" "%g", "%c" and scanf of the same integer specifications, %[l][f e g], "%c", "%n", literal matching: modelled (Cello/Text.lean), validated by the runs, not verified',
+                    'arguments are modelled as values (Cello object headers, c_int / c_float / c_str dispatch are properties C08 / C19); an int64_t passed to printf for a narrower specification is read as libc reads it on x86-64')
     assumptions = ('Strings are NUL-free C strings; Ints are int64; Floats are finite doubles',
-                   'text following a written integer does not start with a digit (nor with x/X after a lone 0 read with %li); text following a written Float does not start with a digit or e/E',
+                   'an Int written under a specification is a value of the type the specification names (hh: char, h: short, none: int, l ll j z t q: 64 bits; signed for d i, unsigned for o u x X — for the 64-bit modifiers every int64); beyond it C\'s conversion to that type is what is read back (proved and checked, but not "equal")',
+                   'text following a written integer does not start with a digit (after %x / %X: a hexadecimal digit), nor with x/X after a lone 0 read with %i / %x / %X / %$; text following a written Float does not start with a digit or e/E (after %g / %G also not with . or x/X)',
                    'a separator read from a File that ends in white space is not followed by white space (scanf would swallow it)',
                    'separators are NUL-free text without %, or a literal percent written and read as %% (fixed by 619a9b3); start position <= length of the String read from',
-                   'numeric specifications carry the l modifier (F21: scanning %i/%d into a long is outside the property)',
+                   'a Float written under a floating specification without the l modifier is the value of a float: generated inputs stay out of the territory of known finding KF-C15-float-spec-narrow (witness corpus/kf_c15_float_spec_narrow.ops)',
+                   'specifications carry no flags, width or precision; %a / %A and the L modifier are outside the model',
                    'LC_ALL=C; x86-64 glibc (long = int64_t, char signed)')
     def cases(self, rng, tier, boost=1):
         quick = tier == 'quick'
@@ -299,7 +357,7 @@ class C15(Spec):
         prev = None; k = -1
         for l in ms:
             if l.startswith('O '): k += 1; prev = l
-            elif 'contract=1' in l and 'rt=0' in l:
+            elif 'contract=1' in l and 'rt=0' in l:   # contract=2 (known-finding territory) and contract=0 are not claims
                 return f'model does not round-trip the in-contract op `{ops[k] if k < len(ops) else "?"}`: {prev}'
         return None
     def compare(self, case, c_out, m_out):
